@@ -17,6 +17,7 @@ import (
 	"strconv"
 	"strings"
 	"testing"
+	"time"
 
 	"github.com/ProtonMail/go-crypto/openpgp"
 	"github.com/ProtonMail/go-crypto/openpgp/armor"
@@ -48,6 +49,8 @@ type SignCase struct {
 	DebType    string     `json:"deb_type,omitempty"`
 	APKKeyName string     `json:"apk_key_name,omitempty"`
 	Fault      string     `json:"fault,omitempty"`
+	EdgeSig    bool       `json:"edge_sig,omitempty"` // rpm callback: return a signature whose last byte is an ASCII blank
+	returned   [][]byte
 }
 
 func (sc *SignCase) protected() bool {
@@ -219,10 +222,28 @@ func (sc *SignCase) callback(captured *[][]byte) func(io.Reader) ([]byte, error)
 			err = openpgp.ArmoredDetachSign(&out, el[0], bytes.NewReader(data), &packet.Config{DefaultHash: crypto.SHA256})
 		default:
 			err = openpgp.DetachSign(&out, el[0], bytes.NewReader(data), &packet.Config{DefaultHash: crypto.SHA256})
+			if err == nil && sc.EdgeSig {
+				// a binary signature is opaque bytes: look for one whose last byte is an ASCII blank by moving the
+				// creation time back second by second (about one signature in forty ends that way)
+				base := time.Now()
+				for k := 1; k < 400 && !isBlank(out.Bytes()[out.Len()-1]); k++ {
+					out.Reset()
+					tm := base.Add(-time.Duration(k) * time.Second)
+					err = openpgp.DetachSign(&out, el[0], bytes.NewReader(data), &packet.Config{DefaultHash: crypto.SHA256, Time: func() time.Time { return tm }})
+					if err != nil {
+						break
+					}
+				}
+			}
+		}
+		if err == nil {
+			sc.returned = append(sc.returned, append([]byte(nil), out.Bytes()...))
 		}
 		return out.Bytes(), err
 	}
 }
+
+func isBlank(c byte) bool { return c == ' ' || (c >= '\t' && c <= '\r') }
 
 // clearNorm: the cleartext signature framework drops trailing blanks of every line and normalises line ends.
 func clearNorm(b []byte) string {
@@ -433,6 +454,9 @@ func checkSign(sc *SignCase, useGPG bool) []Violation {
 				vs.add("C10.deb.signature-invalid", f, "%s does not verify over debian-binary+control+data as stored: %v", d.SigMember.Name, err)
 			}
 			sc.checkIssuer(f, d.SigMember.Data, &vs)
+			if len(sc.returned) == 1 && !bytes.Equal(sc.returned[0], d.SigMember.Data) {
+				vs.add("C10.callback.signature-not-verbatim", f, "the signature the callback returned (%d bytes) is not what the package stores (%d bytes)", len(sc.returned[0]), len(d.SigMember.Data))
+			}
 			if len(captured) > 0 && !bytes.Equal(captured[0], signed) {
 				vs.add("C10.callback.bytes", f, "the callback was handed %d bytes, the stored members concatenate to %d", len(captured[0]), len(signed))
 			}
@@ -457,6 +481,10 @@ func checkSign(sc *SignCase, useGPG bool) []Violation {
 				vs.add("C10.rpm.payload-signature-invalid", f, "PGP does not verify over header+payload as shipped: %v", err)
 			}
 			sc.checkIssuer(f, hs, &vs)
+			if len(sc.returned) == 2 && (!bytes.Equal(sc.returned[0], hs) || !bytes.Equal(sc.returned[1], ps)) {
+				vs.add("C10.callback.signature-not-verbatim", f, "the signatures the callback returned (%d and %d bytes, last bytes %#x %#x) are not what the package stores (%d and %d bytes)",
+					len(sc.returned[0]), len(sc.returned[1]), sc.returned[0][len(sc.returned[0])-1], sc.returned[1][len(sc.returned[1])-1], len(hs), len(ps))
+			}
 			if len(captured) > 0 {
 				if len(captured) != 2 || !bytes.Equal(captured[0], r.Hdr.Raw) || !bytes.Equal(captured[1], body) {
 					vs.add("C10.callback.bytes", f, "the callback was called %d times; it must receive the header and then header+payload as shipped", len(captured))
@@ -530,6 +558,9 @@ func genSignCase(t *rapid.T) *SignCase {
 				sc.KeyID = "subkey"
 			}
 		}
+	}
+	if sc.Callback && sc.Format == "rpm" {
+		sc.EdgeSig = rapid.Bool().Draw(t, "edgesig")
 	}
 	if sc.Callback {
 		sc.KeyID = ""
